@@ -36,7 +36,7 @@ def run_case(rep, scn, case, sb, tag):
     history = []
     for step in range(case["steps"]):
         files = R.files_of(cur)
-        mode = rng.choice(["clean", "faulty", "faulty", "local", "pool_fail"])
+        mode = rng.choice(["clean", "faulty", "faulty", "local", "pool_fail", "stamp_fail"])
         plan = R.gen_fault_plan(rng, cur, files, density=rng.choice([1, 2, 3])) if mode == "faulty" else {}
         if mode == "pool_fail":
             # the metadata stages succeed, one or two pool files persistently fail
@@ -44,8 +44,14 @@ def run_case(rep, scn, case, sb, tag):
             if pool:
                 plan = {url: {p: {"first": [], "rest": rng.choice(["error", "missing", "short"])}
                               for p in rng.sample(pool, min(len(pool), rng.randint(1, 2)))}}
+        stamp = None
+        if mode == "stamp_fail":
+            # a local I/O error exactly when the transferred pool file is given the upstream's date
+            pool = sorted(p for p in files[url] if p.startswith("pool/"))
+            stamp = rng.choice(pool) if pool else None
         res = R.run_observed(cur, base, plan=plan, files_by_url=files,
-                             local_fault=rng.randint(1, 150) if mode == "local" else None)
+                             local_fault=rng.randint(1, 150) if mode == "local" else None,
+                             path_fault=stamp, path_fault_kinds=("utime",))
         history.append((mode, res.code))
         if rng.random() < 0.35:
             history.append(("same-upstream", 0))     # the next run sees the same upstream version again
